@@ -513,6 +513,14 @@ fn exec_inner(op: &str, a: &Value, st: &mut State) -> Value {
             };
             #[cfg(feature = "cfg-alloc")]
             let r_owned = TimeZone::new(tr.clone(), ty.clone(), lp.clone(), rule).map(|z| zone_json(&z.as_ref())).map_err(|e| kind_of_debug(&format!("{e:?}")));
+            // derived equality: the owned zone seen through as_ref() equals the borrowed zone built from the same parts
+            #[cfg(feature = "cfg-alloc")]
+            let eqref = match (TimeZone::new(tr.clone(), ty.clone(), lp.clone(), rule), TimeZoneRef::new(&tr, &ty, &lp, &rule)) {
+                (Ok(o), Ok(r)) => (o.as_ref() == r && o.clone() == o) as u8,
+                _ => 1,
+            };
+            #[cfg(not(feature = "cfg-alloc"))]
+            let eqref = 1u8;
             #[cfg(not(feature = "cfg-alloc"))]
             let r_owned = r_ref.map_err(|e| kind_of_debug(&format!("{e:?}")));
             match r_owned {
@@ -527,7 +535,7 @@ fn exec_inner(op: &str, a: &Value, st: &mut State) -> Value {
                         st.parts = None;
                     }
                     st.buf = vec![None; BUF_LEN];
-                    json!({ "ok": {"ref": kref, "echo": echo} })
+                    json!({ "ok": {"ref": kref, "echo": echo, "eq": eqref} })
                 }
                 Err(k) => {
                     st.clear_zone();
@@ -683,8 +691,41 @@ fn exec_inner(op: &str, a: &Value, st: &mut State) -> Value {
             Err(e) => crate_err(e),
         },
         "footprint" => ok(json!(1)),
+        // ---- convenience constructors ----
+        #[cfg(feature = "cfg-alloc")]
+        "fixedzone" => {
+            let off = geti(a, "off") as i32;
+            match TimeZone::fixed(off) {
+                Ok(z) => {
+                    let j = zone_json(&z.as_ref());
+                    let same_as_utc = (z == TimeZone::utc()) as u8;
+                    st.set_owned(z);
+                    ok(json!({"zone": j, "utc": zone_json(&TimeZoneRef::utc()), "utc_owned": zone_json(&TimeZone::utc().as_ref()), "equals_utc": same_as_utc, "lt_utc": lt_json(&LocalTimeType::utc())}))
+                }
+                Err(e) => {
+                    st.clear_zone();
+                    err(e)
+                }
+            }
+        }
+        // ---- the clock-reading entry points, bracketed by two readings of the same clock ----
+        #[cfg(feature = "cfg-std")]
+        "now" => {
+            let clock = || std::time::SystemTime::now().duration_since(std::time::UNIX_EPOCH).map(|d| d.as_nanos() as i128).unwrap_or(0);
+            let t0 = clock();
+            let res = match gets(a, "via") {
+                "utc" => UtcDateTime::now().map(|x| udt_json(&x)),
+                _ => DateTime::now(zone_ref(st)).map(|x| dt_json(&x)),
+            };
+            let cur = st.owned.as_ref().map(|z| z.find_current_local_time_type().map(lt_json));
+            let t1 = clock();
+            match res {
+                Ok(v) => ok(json!({"t0": w(t0), "dt": v, "t1": w(t1), "current_type": match cur { Some(Ok(t)) => json!([t]), _ => json!([]) }})),
+                Err(e) => err(e),
+            }
+        }
         #[allow(unreachable_patterns)]
-        "tzstring" | "tzif" | "resolve" | "posixtz" | "local" => json!({ "arg": UNAVAILABLE }),
+        "tzstring" | "tzif" | "resolve" | "posixtz" | "local" | "fixedzone" | "now" => json!({ "arg": UNAVAILABLE }),
         // observations of the reference implementations (recorded by lib/refs.py) are passed through unchanged:
         // the trace specification judges them against the same definitions as tz-rs (C10)
         "ref" => ok(getv(a, "obs").clone()),
